@@ -111,6 +111,8 @@ class C08(Prop):
 
     def gen(self, rng, ctx):
         r = rng.random()
+        if r < 0.02:
+            return self.gen_shared_const(rng)
         if r < 0.12:
             return self.gen_nonmultiple(rng)
         if r < 0.3:
@@ -156,6 +158,47 @@ class C08(Prop):
         return {'type': 'discrete', 'cls': cls, 'formula': f, 'data': lang.gen_trace(rng, names, n),
                 'period': rng.choice(PERIODS), 'unit': rng.choice(['s', 's', 'ms', 'us', 'ns']),
                 'mode': rng.choice(MODES), 'sseed': rng.randrange(1 << 30), 'set_unit_explicitly': rng.random() < 0.3}
+
+    def gen_shared_const(self, rng):
+        """One declared constant used as the end bound of two operators with different unit notations
+        (`once[0:T](p) and historically[0:T s](q)`): every occurrence is read with the unit written next to IT."""
+        T = rng.choice([1, 2, 3])
+        du = rng.choice(['ms', 's'])
+        u1, u2 = rng.sample(['', 'ms', 's'], 2)
+        if (u1 or du) == (u2 or du):
+            u1, u2 = 'ms', 's'
+        o1, o2 = rng.choice(['once', 'historically']), rng.choice(['once', 'historically'])
+        return {'type': 'shared-const', 'T': T, 'du': du, 'u': [u1, u2], 'ops': [o1, o2], 'conn': rng.choice(['and', 'or']),
+                'online': rng.random() < 0.5, 'data': lang.gen_trace(rng, ['x', 'y'], rng.randint(5, 12))}
+
+    def judge_shared_const(self, case):
+        v = Verdict()
+        v.nontrivial = True
+        v.info['class:shared-constant-bound'] = 1
+        T, du, (u1, u2), (o1, o2) = case['T'], case['du'], case['u'], case['ops']
+        data = case['data']
+        n = len(data['x'])
+        w = [T * U[u or du] // U['ms'] for u in (u1, u2)]            # windows in samples (period 1 ms)
+        px, py = lang.N('geq', lang.V('x'), lang.C(1.0)), lang.N('leq', lang.V('y'), lang.C(1.0))
+        f = lang.N(case['conn'], lang.N(o1, px, ivl=(0, w[0])), lang.N(o2, py, ivl=(0, w[1])))
+        exp = refd.evaluate(f, data, n)
+        text = '((%s[0:T%s] (x >= 1)) %s (%s[0:T%s] (y <= 1)))' % (o1, (' ' + u1) if u1 else '', case['conn'], o2,
+                                                                   (' ' + u2) if u2 else '')
+        sd = {'text': text, 'vars': ['x', 'y'], 'consts': [('T', 'float', str(T))], 'period': (1, 'ms', 0.1), 'unit': du}
+        times = [float(Fr(i * U['ms'], U[du])) for i in range(n)]
+        try:
+            got = self.run_disc('online' if case['online'] else 'offline', sd, ['x', 'y'], data, n, times)
+        except Exception as e:
+            v.bad('shared-const-raises:' + type(e).__name__, '%s [T=%s, unit=%s, period 1ms] raised %s: %s' % (
+                text, T, du, type(e).__name__, e))
+            return v
+        for i in range(n):
+            if exp[i] == exp[i] and not refd.same(got[i], exp[i]):
+                v.bad('shared-const-differs', '%s [T=%s, unit=%s, period 1ms, %s] gives %r at #%d; with windows of %d and %d '
+                      'samples the value is %r; data=%s' % (text, T, du, 'online' if case['online'] else 'offline', got[i], i,
+                                                            w[0], w[1], exp[i], data))
+                break
+        return v
 
     def gen_nonmultiple(self, rng):
         op = rng.choice(['once', 'historically', 'eventually', 'always', 'since', 'until'])
@@ -233,6 +276,8 @@ class C08(Prop):
             return self.judge_nonmultiple(case)
         if t == 'sibling':
             return self.judge_sibling(case)
+        if t == 'shared-const':
+            return self.judge_shared_const(case)
         return self.judge_dense(case)
 
     def run_disc(self, cls, sd, names, data, n, times):
